@@ -13,7 +13,7 @@ import (
 	"time"
 )
 
-func init() { props["C08"] = func(r *Rec) { runC08(r); c08PoolElectorate(r); c08CollectiveElectorate(r); c08DappElectorate(r); recFor(r, "C08") } }
+func init() { props["C08"] = func(r *Rec) { runC08(r); c08PoolElectorate(r); c08CollectiveElectorate(r); c08DappElectorate(r); c08LongAddressCarriers(r); recFor(r, "C08") } }
 
 func resName(r govtypes.VoteResult) string {
 	switch r {
